@@ -1,13 +1,15 @@
 (** C12 -- compiling any verified program returns Ok or Err and never panics or overruns.
     PARTIAL.  What is proved (theories/JitLogicProofs.v, over definitions regenerated from src/jit.rs and the
     regenerated verifier): on every accepted program the jump-target bookkeeping of the x86-64 JIT stays in range, and
-    the register map is injective and avoids the scratch registers.  What is not modelled: the byte emission itself
-    (two-pass sizing, emit_bytes! bound) and the whole of Cranelift -- those are covered by compiling corpora of
+    the register map is injective and avoids the scratch registers; the assertion emit_bytes! makes before each write of the
+    second pass holds for every write inside the length the first pass counted, the last byte of an image that fills its pages
+    exactly included (theories/JitMemProofs.v over coq/gen/JitMem.v).  What is not modelled: that the two passes emit the same
+    number of bytes (they run the same code on the same arguments: C20_jit_memory_size) and the whole of Cranelift's builder -- those are covered by compiling corpora of
     verifier-accepted programs in a child process (checks/C12.py). *)
 From Coq Require Import ZArith List Bool.
 From RbpfV Require Import MachInt Ebpf WellFormed Verifier JitLogicProofs.
-From RbpfV Require Import ClCfgProofs.
-From RbpfV.gen Require Import JitLogic Opcodes ClCfg.
+From RbpfV Require Import ClCfgProofs JitMemProofs.
+From RbpfV.gen Require Import JitLogic Opcodes ClCfg JitMem.
 Import ListNotations.
 Open Scope bool_scope.
 Open Scope Z_scope.
@@ -48,8 +50,21 @@ Theorem C12_cranelift_targets_total : forall p, bytes_ok p -> acc p -> forall k,
   gen_cl_next_pc k = Ok (k + 1).
 Proof. exact cl_jump_targets. Qed.
 
+(** the bound asserted by emit_bytes! in the writing pass: with the buffer sized by JitMemory::new from the length the sizing
+    pass reached, a write of [size] bytes at [offset] that ends inside that length passes it -- also when the image ends exactly
+    at the end of the buffer *)
+Theorem C12_jit_emit_fits : forall code_len len offset size,
+  0 <= offset -> 0 <= size -> offset + size <= code_len -> code_len + 8192 < 2 ^ 64 ->
+  gen_jit_mem_size_std code_len = Ok len -> gen_emit_bytes_fits offset size len = Ok true.
+Proof. exact emit_bytes_fits. Qed.
+
+Example C12_emit_fits_example :
+  gen_jit_mem_size_std 8192 = Ok 8192 /\ gen_emit_bytes_fits 8191 1 8192 = Ok true /\ gen_emit_bytes_fits 8191 2 8192 = Ok false.
+Proof. vm_compute. repeat split. Qed.
+
 Print Assumptions C12_jit_jump_targets.
 Print Assumptions C12_jit_call_targets.
 Print Assumptions C12_register_map.
 Print Assumptions C12_cranelift_blocks_registered.
 Print Assumptions C12_cranelift_targets_total.
+Print Assumptions C12_jit_emit_fits.
